@@ -217,6 +217,142 @@ def _hoist_walrus(tree):
     ast.fix_missing_locations(tree)
 
 
+def _inline_lock_decorators(tree):
+    """A module-level decorator of the shape
+
+        def synchronized(method):
+            @functools.wraps(method)
+            def wrapper(self, *args, **kwargs):
+                with self.<lock>:
+                    return method(self, *args, **kwargs)
+            return wrapper
+
+    is applied at load time: the decorated method's body is put inside the
+    ``with`` block and the decorator (definition and uses) disappears."""
+    def docless(body):
+        return [b for b in body if not (
+            isinstance(b, ast.Expr) and isinstance(b.value, ast.Constant)
+            and isinstance(b.value.value, str))]
+    decos = {}
+    for d in tree.body:
+        if not isinstance(d, ast.FunctionDef) or d.decorator_list or \
+                len(d.args.args) != 1 or d.args.vararg or d.args.kwarg:
+            continue
+        m = d.args.args[0].arg
+        body = docless(d.body)
+        if len(body) != 2 or not isinstance(body[0], ast.FunctionDef) or \
+                not (isinstance(body[1], ast.Return) and isinstance(
+                    body[1].value, ast.Name) and
+                    body[1].value.id == body[0].name):
+            continue
+        w = body[0]
+        if not all(isinstance(x, ast.Call) and 'wraps' in ast.unparse(x.func)
+                   for x in w.decorator_list):
+            continue
+        if len(w.args.args) != 1 or w.args.vararg is None or \
+                w.args.kwonlyargs:
+            continue
+        s_ = w.args.args[0].arg
+        wb = docless(w.body)
+        if len(wb) != 1 or not isinstance(wb[0], ast.With) or \
+                len(wb[0].body) != 1:
+            continue
+        inner = wb[0].body[0]
+        if not (isinstance(inner, ast.Return) and isinstance(
+                inner.value, ast.Call) and isinstance(
+                    inner.value.func, ast.Name) and
+                inner.value.func.id == m):
+            continue
+        c = inner.value
+        if not (len(c.args) == 2 and isinstance(c.args[0], ast.Name) and
+                c.args[0].id == s_ and isinstance(c.args[1], ast.Starred)
+                and isinstance(c.args[1].value, ast.Name) and
+                c.args[1].value.id == w.args.vararg.arg):
+            continue
+        if w.args.kwarg is not None and not (
+                len(c.keywords) == 1 and c.keywords[0].arg is None):
+            continue
+        if any(it.optional_vars is not None for it in wb[0].items):
+            continue
+        decos[d.name] = (d, s_, wb[0].items)
+    if not decos:
+        return
+    used = set()
+    for cdef in tree.body:
+        if not isinstance(cdef, ast.ClassDef):
+            continue
+        for f in cdef.body:
+            if not isinstance(f, ast.FunctionDef) or not f.args.args:
+                continue
+            for dec in list(f.decorator_list):
+                if isinstance(dec, ast.Name) and dec.id in decos:
+                    d, s_, items = decos[dec.id]
+                    self_name = f.args.args[0].arg
+                    new_items = copy.deepcopy(items)
+                    for it in new_items:
+                        for x in ast.walk(it):
+                            if isinstance(x, ast.Name) and x.id == s_:
+                                x.id = self_name
+                    doc = [b for b in f.body if b not in docless(f.body)]
+                    f.body = doc + [ast.With(items=new_items,
+                                             body=docless(f.body) or
+                                             [ast.Pass()],
+                                             lineno=f.lineno)]
+                    f.decorator_list.remove(dec)
+                    used.add(dec.id)
+    # the decorator definitions go (they contain a nested function); a
+    # decorator still referenced elsewhere stays and is reported unsupported
+    still = {n.id for n in ast.walk(tree) if isinstance(n, ast.Name) and
+             isinstance(n.ctx, ast.Load) and n.id in decos}
+    tree.body = [b for b in tree.body if not (
+        isinstance(b, ast.FunctionDef) and b.name in decos and
+        b.name not in still)]
+    ast.fix_missing_locations(tree)
+
+
+def _normalise_sentinel_iter(tree):
+    """``for x in iter(functools.partial(f, a), s): body`` (or
+    ``iter(lambda: E, s)``) is ``while True: x = f(a); if x == s: break;
+    body`` - the two-argument form of ``iter`` calls the callable until it
+    returns the sentinel."""
+    class T(ast.NodeTransformer):
+        def visit_For(self, n):
+            self.generic_visit(n)
+            it = n.iter
+            if n.orelse or not (isinstance(it, ast.Call) and isinstance(
+                    it.func, ast.Name) and it.func.id == 'iter' and
+                    len(it.args) == 2 and not it.keywords):
+                return n
+            c, sentinel = it.args
+            if isinstance(c, ast.Lambda) and not (
+                    c.args.args or c.args.vararg or c.args.kwarg or
+                    c.args.kwonlyargs):
+                call = c.body
+            elif isinstance(c, ast.Call) and not c.keywords and c.args and (
+                    isinstance(c.func, ast.Attribute) and
+                    c.func.attr == 'partial' or isinstance(
+                        c.func, ast.Name) and c.func.id == 'partial'):
+                call = ast.Call(func=c.args[0], args=list(c.args[1:]),
+                                keywords=[])
+            else:
+                return n
+            if not isinstance(sentinel, ast.Constant):
+                return n
+            body = [ast.Assign(targets=[n.target], value=call,
+                               lineno=n.lineno),
+                    ast.If(test=ast.Compare(
+                        left=copy.deepcopy(n.target), ops=[ast.Eq()],
+                        comparators=[sentinel]), body=[ast.Break()],
+                        orelse=[])] + n.body
+            for x in ast.walk(body[1].test):
+                if hasattr(x, 'ctx'):
+                    x.ctx = ast.Load()
+            return ast.copy_location(ast.While(
+                test=ast.Constant(value=True), body=body, orelse=[]), n)
+    T().visit(tree)
+    ast.fix_missing_locations(tree)
+
+
 def _normalise_temporaries(tree):
     """Normal form for three purely syntactic variations (applied when a
     module is loaded, so every rule sees one shape):
@@ -648,8 +784,12 @@ class Program:
             # back into their callers where that is a syntactic rewrite;
             # then the model is rebuilt from the rewritten modules
             from .deextract import deextract
+            api = set()
+            for st in getattr(self.modules.get('__init__'), 'body', []):
+                if isinstance(st, ast.ImportFrom):
+                    api |= {a.asname or a.name for a in st.names}
             rep = deextract(self.modules, set(canon),
-                            set(self.renamed.values()))
+                            set(self.renamed.values()), api)
             if rep:
                 self.deextracted = rep
                 self.classes, self.funcs, self.imports = {}, {}, {}
@@ -675,8 +815,10 @@ class Program:
     def _load_module(self, mod, tree, relfile):
         imps = {}
         globs = {}
+        _inline_lock_decorators(tree)
         _inline_simple_properties(tree)
         _hoist_walrus(tree)
+        _normalise_sentinel_iter(tree)
         _normalise_temporaries(tree)
         _inline_attr_aliases(tree)
         _fold_module_constants(tree)
@@ -1530,6 +1672,23 @@ class Program:
                     m = self.lookup_method(parts[0], parts[1])
                     if m:
                         return [m]
+                if len(parts) == 3:
+                    # a method of a class-level literal constant
+                    # (``Cls._MESSAGE.format(...)``)
+                    for c in self.mro(parts[0]):
+                        v = self.classes[c].class_attrs.get(parts[1])
+                        if isinstance(v, ast.Constant) and isinstance(
+                                v.value, (str, bytes)):
+                            return ['method:%s.%s' % (
+                                type(v.value).__name__, parts[2])]
+                        if isinstance(v, (ast.JoinedStr, ast.BinOp)) and \
+                                all(isinstance(x, (
+                                    ast.Constant, ast.BinOp, ast.Add,
+                                    ast.JoinedStr, ast.FormattedValue))
+                                    for x in ast.walk(v)
+                                    if not isinstance(x, (ast.Load,
+                                                          ast.operator))):
+                            return ['method:str.' + parts[2]]
                 return ['unknown:' + d]
             if parts[0] in self.funcs:
                 return [self.funcs[parts[0]]]
